@@ -17,7 +17,7 @@ META = {
 def run():
     c = Check("C14", "other")
     c.engine = Engine()
-    c.deductive(["vsg.rule_list.rule_list.check_rules"])
+    c.deductive(["vsg.rule_list.rule_list.check_rules", "vsg.apply_rules.apply_rules", "vsg.rule_list.rule_list.clear_violations"])
     n = 24 if c.tier == "quick" else 400
     files = corpus.sample(n, c.seed + 14)
     res = corpus.pmap(cli.c14_case, [(f, c.seed * 1000 + i) for i, f in enumerate(files)], chunksize=1)
